@@ -5,10 +5,11 @@
 
 static long nlines;
 
+static int force_align = -1;
 static void one(const unsigned char* img, size_t imglen, size_t n, unsigned char fill) {
-  /* window of n bytes: img bytes (as far as they go) then `fill` */
-  unsigned char* blk = malloc(n ? n : 1);
-  unsigned char* buf = n ? blk : blk + 1; /* n = 0: one past the end of a 1-byte block */
+  /* window of n bytes: img bytes (as far as they go) then `fill`; flush with the end of its block, start address rotating through all alignments */
+  unsigned char* blk;
+  unsigned char* buf = force_align >= 0 ? vh_exact(n, (unsigned)force_align, &blk) : vh_exact_rot(n, &blk);
   for (size_t i = 0; i < n; i++) buf[i] = i < imglen ? img[i] : fill;
   vh_ev_clear();
   va_reset_counters();
@@ -81,6 +82,10 @@ int main(int argc, char** argv) {
         /* more bytes behind the head than it needs: the result may not depend on them nor on how many there are */
         static const size_t more[] = {2, 3, 4, 7, 8, 9, 15, 16, 17, 64};
         for (size_t mi = 0; mi < (str ? 0 : 10); mi++) one(img, hl, hl + more[mi], (unsigned char)(0x11 * (mi + 1)));
+        /* the same head at every start address modulo 16: the result may not depend on where the caller keeps its bytes */
+        if (argw >= 4 || (argw == 2 && (nv >= 0 ? vi % 3 == 0 : vi % 970 == 0)))
+          for (force_align = 0; force_align < 16; force_align++) { one(img, hl, hl, 0xA5); if (!str) one(img, hl, hl + 3, 0x5A); }
+        force_align = -1;
       } else {
         one(img, hl, hl, 0xA5);
         one(img, hl, hl - 1, 0xA5);
